@@ -21,6 +21,7 @@ import Pandora.Proofs.C08Pick
 import Pandora.Proofs.C08Size
 import Pandora.Bridge.ProvLoops
 import Pandora.Proofs.C08Comp
+import Pandora.Proofs.C08Fair
 import Pandora.Drv.C08
 
 namespace Pandora.Props.C08
@@ -1109,4 +1110,23 @@ theorem C08_spec_holds_all (k : Kind) (preload : Bool) (limit passes n cap : Nat
     · exact C08_spec_holds k preload limit passes n cap hn hcap (by intro m' hm; rw [hE] at hm; cases hm; omega)
 
 example : Spec.C08.expected 5 2 3 = some 5 ∧ (3 : Nat) ≤ 5 := by decide
+/-! ## round 6, audit: non-vacuity of the fairness hypothesis -/
+
+/-- **`C08_conc_fair_end` is not vacuous**: a schedule that makes minimal progress exists -/
+theorem C08_conc_fair_end_nonvacuous : Progressing fairInp 2 fairInp.kind.chanCap 2 fairSched := by
+  have hstuck : Stuck fairInp 2 0 2 (stateAt fairInp 2 0 2 fairSched 10) :=
+    stuck_of_done _ _ _ _ _ (by decide) (by decide) (by decide) (by decide)
+  intro t hns
+  by_cases ht : t < 10
+  · have key : ∀ t, t < 10 → ∃ t', t' < 10 ∧ t ≤ t' ∧ fairSched t' ≠ .cancel ∧
+        ((stateAt fairInp 2 0 2 fairSched t').next fairInp 2 0 2 (fairSched t')).isSome = true := by decide
+    obtain ⟨t', _, h1, h2, h3⟩ := key t ht
+    exact ⟨t', h1, h2, h3⟩
+  · exfalso
+    apply hns
+    obtain ⟨j, rfl⟩ : ∃ j, t = 10 + j := ⟨t - 10, by omega⟩
+    have : stateAt fairInp 2 fairInp.kind.chanCap 2 fairSched (10 + j) = stateAt fairInp 2 0 2 fairSched 10 := fairSched_const j
+    rw [this]
+    exact hstuck
+
 end Pandora.Props.C08
